@@ -32,6 +32,9 @@ enum Metric {
 #[derive(Clone, Debug, PartialEq, Eq, Hash, PartialOrd, Ord)]
 enum Op {
     CreateIndex(Metric),
+    /// CREATE VECTOR INDEX wi FOR (n:W) ON (n.e) -- a second index of the same dimension on the
+    /// other label (creating an index backfills, which rebuilds every index of the store)
+    CreateIndexW,
     /// CREATE (:V {u: slot, e: vec})
     CreateV(usize, usize),
     /// CREATE (:V {u: slot})   -- labelled, no vector
@@ -55,6 +58,8 @@ struct RNode {
     id: u64,
     has_v: bool,
     e: Option<usize>,
+    /// carries label :W (set at creation, never removed)
+    w: bool,
 }
 
 /// Reference state + a simulation of the index as an entry list (who was added when), from which
@@ -63,6 +68,8 @@ struct RNode {
 struct Ref {
     slots: [Option<RNode>; 3],
     index: Option<Metric>,
+    /// the second index, on :W(e), exists
+    windex: bool,
     /// every add_vector the index has seen since it was (re)built: (node id, vector), in order,
     /// with a flag whether a correct index would still hold the entry
     entries: Vec<Entry>,
@@ -232,6 +239,22 @@ fn search_manager(st: &St, q: &[f32; 2], k: usize) -> Obs {
 /// whatever was declared) under which a simulated index gives exactly what was observed.
 fn compare(st: &St, vio: &mut Vec<(String, String)>) {
     let r = &st.r;
+    if r.windex {
+        // the second index: whatever it returns among the LIVE nodes must carry :W and a vector
+        // (entries of deleted nodes are the known removal gap and are judged on the :V index)
+        for q in &QUERIES {
+            if let Ok(Ok(rows)) = guarded(|| st.g.vector_index.search("W", "e", &q[..], 3).map_err(|e| e.to_string())) {
+                for (n, _) in rows {
+                    if let Some(node) = r.slots.iter().flatten().find(|x| x.id == n.as_u64()) {
+                        if !node.w {
+                            vio.push(("second_index:foreign_node".into(), format!("search over :W(e) returned node {} which does not carry :W (reference node {node:?})", n.as_u64())));
+                            return;
+                        }
+                    }
+                }
+            }
+        }
+    }
     let declared = match r.index {
         Some(m) => m,
         None => {
@@ -340,6 +363,9 @@ impl Model for M {
             v.push(Op::CreateIndex(Metric::Cosine));
             v.push(Op::CreateIndex(Metric::L2));
         }
+        if !r.windex {
+            v.push(Op::CreateIndexW);
+        }
         if let Some(slot) = (0..3).find(|s| r.slots[*s].is_none()) {
             for i in 0..VECS.len() {
                 v.push(Op::CreateV(slot, i));
@@ -370,6 +396,7 @@ impl Model for M {
         st.r.hist.push(op.clone());
         let stmt = match op {
             Op::CreateIndex(m) => format!("CREATE VECTOR INDEX vi FOR (n:V) ON (n.e) OPTIONS {{dimensions: 2, similarity: '{}'}}", if *m == Metric::L2 { "l2" } else { "cosine" }),
+            Op::CreateIndexW => "CREATE VECTOR INDEX wi FOR (n:W) ON (n.e) OPTIONS {dimensions: 2, similarity: 'cosine'}".to_string(),
             Op::CreateV(s, i) => format!("CREATE (:V {{u: {s}, e: {}}})", vlit(*i)),
             Op::CreateVNoVec(s) => format!("CREATE (:V {{u: {s}}})"),
             Op::CreateW(s) => format!("CREATE (:W {{u: {s}, e: {}}})", vlit(0)),
@@ -401,6 +428,13 @@ impl Model for M {
                     r.index = Some(*m);
                     r.rebuild_entries();
                 }
+                Op::CreateIndexW => {
+                    r.windex = true;
+                    // the backfill rebuilds every index from the live nodes
+                    if r.index.is_some() {
+                        r.rebuild_entries();
+                    }
+                }
                 Op::CreateV(s, _) | Op::CreateVNoVec(s) | Op::CreateW(s) => match node_id_of_slot(&st.g, *s) {
                     Some(id) => {
                         let (has_v, e) = match op {
@@ -409,7 +443,7 @@ impl Model for M {
                             _ => (false, Some(0)),
                         };
                         r.free.retain(|x| *x != id);
-                        r.slots[*s] = Some(RNode { id, has_v, e });
+                        r.slots[*s] = Some(RNode { id, has_v, e, w: matches!(op, Op::CreateW(_)) });
                         if has_v {
                             if let Some(e) = e {
                                 r.add_entry(id, e);
@@ -477,11 +511,12 @@ impl Model for M {
         // reference graph (slot -> node id, label, vector), index metric, the full simulated entry
         // list (decides futures on an index that appends / keeps dead entries), stored-entry count
         let len = st.g.vector_index.get_index("V", "e").map(|ix| ix.read().unwrap().len());
-        format!("{:?}|{:?}|{:?}|{:?}|free{:?}", r.slots, r.index, r.entries, len, r.free)
+        format!("{:?}|{:?}|{:?}|{:?}|free{:?}|w{}", r.slots, r.index, r.entries, len, r.free, r.windex)
     }
     fn op_name(&self, op: &Op) -> String {
         match op {
             Op::CreateIndex(_) => "create_index",
+            Op::CreateIndexW => "create_index_w",
             Op::CreateV(..) => "create_v",
             Op::CreateVNoVec(_) => "create_v_novec",
             Op::CreateW(_) => "create_w",
